@@ -45,12 +45,13 @@ Definition sbytes_match (r : res (list sitem)) (out : xout) : bool :=
   | _, _ => false
   end.
 
-(* indented output: the real RawToken stream, whitespace-only text dropped, against
-   rawtoks_of_items of the model's items *)
+(* indented output: the real RawToken stream against rawtoks_of_items of the model's items, both
+   normalised (whitespace-only text dropped, text trimmed: a text run that precedes child elements
+   is followed by the line break and padding of the first child) *)
 Definition stoks_match (o : opts) (r : res (list sitem)) (valid : bool) (toks : list tok) (out : xout) : bool :=
   match r, out with
   | Ok its, XBytes _ =>
-      if valid then rtoks_eqb (drop_ws (map rt_of_tok toks)) (drop_ws (rawtoks_of_items its))
+      if valid then rtoks_eqb (normalize (map rt_of_tok toks)) (normalize (rawtoks_of_items its))
       else true   (* output the tokenizer rejects (keys that are no XML names, unescaped values, raw
                      fragments): no token stream to compare; the bytes are compared by SEnc *)
   | Err _, XFail _ => true
